@@ -420,7 +420,7 @@ def run_world(spec, scratch):
                 ev = (r, 'exit', msg[1], exc.get('type'), exc.get('func'))
                 if msg[1] != 'ok' and violation is None:
                     violation = dict(cls='rank-failed',
-                                     sig='rank-failed:%s@%s' % (exc.get('type'), exc.get('func')),
+                                     sig='rank-failed:%s@%s:%s' % (exc.get('type'), exc.get('func'), (exc.get('text') or '')[:60]),
                                      detail=dict(rank=r, exc=exc, tb=(msg[2].get('tb') or '')[-1500:]))
             else:
                 raise RuntimeError('bad message %r' % (msg[0],))
